@@ -51,13 +51,21 @@ def block_edges():
 def gen_set(rng, hid, tier, exhaust=False):
     lines = ["PS %d" % hid]
     if exhaust:
-        cls_size = rng.choice([129, 161, 200, 256])
+        cls_size = rng.choice([129, 161, 200])
+        nxt = {129: 161, 161: 200, 200: 256}[cls_size]
+        # live buffers in the low slots of the NEXT class first (a free list that outgrows its
+        # storage would clobber them), then exhaust the class, release more than a quarter of
+        # it, refill beyond capacity (arena fallback), release everything of that class again
+        for _ in range(12):
+            lines.append("a %d" % nxt)
         for _ in range(515):
             lines.append("a %d" % cls_size)
-        for _ in range(40):
-            lines.append("f %d" % rng.randint(0, 600))
-        for _ in range(60):
+        for _ in range(200):
+            lines.append("f %d" % rng.randint(0, 500))
+        for _ in range(230):
             lines.append("a %d" % cls_size)
+        for _ in range(560):
+            lines.append("f 0")
         return lines
     for _ in range(rng.randint(4, 80 if tier == "quick" else 250)):
         r = rng.random()
@@ -75,6 +83,56 @@ def gen_set(rng, hid, tier, exhaust=False):
 
 def flags(lines):
     return sorted({w for l in (lines or []) for w in FLAGS if w in l})
+
+
+def shadow_flags(hist, out_lines):
+    """Independent reading of the property on the implementation's own output for a PoolSet
+    history (needs no Coq model): a pooled buffer lies in the block of ITS size class, the
+    class counters obey live + free + never-used = capacity at every step, live equals the
+    number of pooled buffers of that class the client holds, and a request served while the
+    class is exhausted comes from the arena."""
+    import json
+    if not hist or not hist[0].startswith("PS "):
+        return []
+    t = json.load(open(os.path.join(common.BUILD, "tables.json")))
+    sizes, counts = t["slot_sizes"], t["slot_counts"]
+    edges = block_edges()
+
+    def cls(n):
+        for i, sz in enumerate(sizes):
+            if n <= sz:
+                return i
+        return None
+    live = []          # (class or None, pooled?, addr)
+    bad = set()
+    for op, line in zip(hist[1:], out_lines[1:]):
+        w = op.split()
+        o = line.split()
+        if w[0] == "a" and o and o[0] in ("pool", "arena"):
+            c = cls(int(w[1]))
+            pooled = o[0] == "pool"
+            addr = int(o[1])
+            if pooled:
+                if c is None or not (edges[2 * c] <= addr < edges[2 * c + 1]):
+                    bad.add("WRONG-CLASS")
+            held = sum(1 for (c2, p2, _) in live if p2 and c2 == c)
+            if c is not None and not pooled and held < counts[c]:
+                bad.add("FALLBACK-WHILE-FREE")
+            if c is not None and pooled and held >= counts[c]:
+                bad.add("OVERCOMMIT")
+            live.insert(0, (c, pooled, addr))
+        elif w[0] == "f" and o and o[0] == "freed":
+            k = int(w[1]) % len(live)
+            live.pop(k)
+        if "|" in o:
+            tail = o[o.index("|") + 1:]
+            if len(tail) >= 5 and tail[0] != "-":
+                c, l, f, b = (int(x) for x in tail[:4])
+                if l + f + (counts[c] - b) != counts[c]:
+                    bad.add("CONSERVATION")
+                if l != sum(1 for (c2, p2, _) in live if p2 and c2 == c):
+                    bad.add("LIVE-COUNT")
+    return sorted(bad)
 
 
 def correspond(env, searching=False, model=True):
@@ -128,7 +186,7 @@ def correspond(env, searching=False, model=True):
             for h, a, b in zip(part, gi, gm):
                 evaluations += 1
                 hist_kinds[h[0].split()[0]] += 1
-                fl = flags(a)
+                fl = flags(a) + shadow_flags(h, a)
                 if a != b or fl:
                     if not fl and len(disagreements) >= 2:
                         disagreements.append({"stream": "pool-history", "history": h[:3] + ["..."]})
@@ -138,7 +196,7 @@ def correspond(env, searching=False, model=True):
                         x, y, _ = common.run_both(env, "shr", "pool", "\n".join(c) + "\n", [dbg], release)
                         if x is None:
                             return False
-                        return bool(flags(x)) if want else x != y
+                        return bool(flags(x) + shadow_flags(c, x)) if want else x != y
                     small = common.ddmin_lines(h, pred)
                     x, y, _ = common.run_both(env, "shr", "pool", "\n".join(small) + "\n", [dbg], release)
                     rec = {"history": small, "impl": x, "model": y, "profile": "release" if release else "debug"}
@@ -188,6 +246,6 @@ def replay(env, payload):
     li, lm, err = common.run_both(env, "replay", "pool", "\n".join(hist) + "\n", ["0" if release else "1"], release)
     print("impl:\n" + "\n".join(li or ["<crashed> " + err]))
     print("model:\n" + "\n".join(lm or ["<failed>"]))
-    bad = li is None or li != lm or bool(flags(li))
+    bad = li is None or li != lm or bool(flags(li) + shadow_flags(hist, li))
     print("replay: %s" % ("still failing" if bad else "passes now"))
     return 1 if bad else 0
